@@ -186,6 +186,14 @@ def strategy(tier):
     return case_strategy()
 
 
+def enumerate_cases(tier):
+    """a hash map with up to 255 variables (and more, if the library takes
+    them): the history harness of C09, judged here for clobbering only"""
+    from . import c09
+    for case in c09.enumerate_cases(tier):
+        yield {"many_hash_variables": case}
+
+
 def fsz(fmt):
     return dsl.fsize(fmt)
 
@@ -197,6 +205,17 @@ def reduce_to(fmt, v):
 
 
 def run_case(case):
+    if "many_hash_variables" in case:
+        from . import c09
+        inner = case["many_hash_variables"]
+        r = c09.run_case(inner)
+        n = len(inner["hv"]) + inner["hv_pad"]
+        r = dict(r, facts=[], classes=[f"hash-variables={n}"] + [
+            c for c in r.get("classes", []) if c.startswith("rejected")])
+        r.pop("bucket", None)
+        if r.get("key"):
+            r["key"] = repr(("many", n, inner["hv"][0]["fmt"]))
+        return r
     decls, subs, dspec = case["decls"], case["subs"], case["dict"]
     dmap = {d["name"]: d for d in decls}
     inst = []
